@@ -26,7 +26,7 @@ package sortref
 //@   modifies nothing
 //@ func (s SplitKey) BuildName(segments, startIndex, adder)
 //@   aspect safe
-//@   requires 0 <= startIndex && startIndex <= len(s) && adder != nil
+//@   requires 0 <= startIndex && adder != nil
 //@   modifies nothing
 //@ func (s SplitKey) ResponseName()
 //@   aspect safe
